@@ -29,8 +29,22 @@ def generate(rng, tier):
     env = gen.gen_env(rng)
     flat = rng.random() < 0.25
     tree = gen.gen_tree(rng, max_entries=9, max_depth=0 if flat else 3, hostile=0.1, min_files=1)
+    pat_args = []
+    if rng.random() < 0.25:
+        pat = rng.choice(["*.bak", "notes", "cache/", "tmp*"])
+        victim = {"*.bak": "x.bak", "notes": "notes", "cache/": "cache/c1", "tmp*": "tmp_1"}[pat]
+        parent = rng.choice([""] + gen.tree_dirs(tree))
+        rel = (parent + "/" if parent else "") + victim
+        if "/" in victim:
+            tree.setdefault((parent + "/" if parent else "") + "cache", {"t": "d"})
+        tree.setdefault(rel, {"t": "f", "c": gen.unique_content(rng)})
+        pat_args = ["-i", pat] if rng.random() < 0.8 else ["-ii", "@M/patterns.txt"]
+        env["_pat"] = pat
     env["tree"] = tree
     ops = []
+    if pat_args and pat_args[0] == "-ii":
+        ops.append({"op": "write", "path": "@M/patterns.txt", "c": {"text": env["_pat"] + "\n"}})
+    env.pop("_pat", None)
     nested = []
     if not flat and rng.random() < 0.4:
         nested = scen.subroots_of(tree, rng, 2)
@@ -47,10 +61,11 @@ def generate(rng, tier):
         else:
             any_dh = True
             common = set(fmts) if common is None else common & set(fmts)
-        ops.append(scen.cmd("create", "@R", *args))
+        ops.append(scen.cmd("create", "@R", *args, *pat_args))
         ops.append(scen.gen_advance(rng))
-    files = gen.tree_files(tree)
-    dirs = gen.tree_dirs(tree)
+    ignorable = ("x.bak", "notes", "c1", "tmp_1")
+    files = [f for f in gen.tree_files(tree) if not (pat_args and os.path.basename(f) in ignorable)]
+    dirs = [d for d in gen.tree_dirs(tree) if not (pat_args and os.path.basename(d) == "cache")]
     mut = None
     k = rng.random()
     if k < 0.85:
@@ -132,8 +147,11 @@ def execute(sc, ctx):
     ctx.steps += 1
     ctx.note("verify", sc["verify"], r.outcome, mut if fired else None)
     has_n = len(gens_with_dh) < len(hv.generations)
+    has_pat = len(hv.latest_patterns() or []) > 3
+    if has_pat:
+        ctx.probe("history_with_user_patterns")
     ctx.state(mut.get("fault") if fired else "none", parent_depth, in_nested, len(hv.generations), len(root_fmts), has_n,
-              bool(nested_fmts - root_fmts), hflag is not None)
+              bool(nested_fmts - root_fmts), hflag is not None, has_pat)
     if fired or len(hv.generations) >= 2:
         ctx.nontrivial = True
     if has_n:
